@@ -4,3 +4,15 @@ package zap
 // replayed on the real build).
 
 func vNativeReset() {}
+
+// ---- virtual file system (engine) / real temporary directory (native)
+
+func vFSExists(path string) bool         { panic("vFS: native implementation pending") }
+func vFSBytes(path string) []byte        { panic("vFS: native implementation pending") }
+func vFSPut(path string, b []byte)       { panic("vFS: native implementation pending") }
+func vFSOpenHandles() int                { panic("vFS: native implementation pending") }
+func vFSLiveMappings() int               { panic("vFS: native implementation pending") }
+func vFSEvents(prefix string) int        { panic("vFS: native implementation pending") }
+func vFSFailWrites(path string)          { panic("vFS: native implementation pending") }
+func vFSFaulted() bool                   { panic("vFS: native implementation pending") }
+func vFSFailOpen(kind string)            { panic("vFS: native implementation pending") }
